@@ -196,7 +196,7 @@ func c07Strings(level int) [][]byte {
 	add(ref.Bytes32(new(big.Int).Sub(ref.Two256(), big.NewInt(1))))
 	add(ref.Bytes32(ref.P))
 
-	for _, v := range alpha.Values(ref.N, 2*level) {
+	for _, v := range alpha.WithWitnesses(alpha.Values(ref.N, 2*level), ref.N) {
 		add(ref.Bytes32(v.V))
 	}
 
@@ -255,7 +255,7 @@ func C07(r *ev.Report) {
 	})
 
 	vals := alpha.Scalars(level + 1)
-	for _, v := range alpha.Values(ref.N, level) {
+	for _, v := range alpha.WithWitnesses(alpha.Values(ref.N, level), ref.N) {
 		vals = append(vals, v.V)
 	}
 
